@@ -331,6 +331,12 @@ func (r *Run) Step(op SOp) *vlib.Violation {
 			}
 			if len(preP) >= 2 {
 				note(r.viol("C17", "next/refused-with-two-playable", "Next() refused (%v) although seats %v could play", cr.err, keys(preP)))
+			} else if q >= 2 {
+				// fewer than two could play before the call, but the move may only be
+				// refused if that is still so after the waiting players have been let
+				// in: with nobody (or one player) able to play, everybody who has sat in
+				// is let in
+				note(r.viol("C17", "next/refused-with-waiting-players", "Next() refused (%v): %d seat(s) could play, but %d players have sat in and are waiting to be let in", cr.err, len(preP), q))
 			}
 			r.St.Class("next-refused")
 			break
@@ -368,6 +374,27 @@ func (r *Run) Step(op SOp) *vlib.Violation {
 					r.Facts["non-playable-occupied-skipped"] = true
 				}
 			}
+		}
+		// C18: a player who has merely joined (or sits out) is held out of play:
+		// no position may land on such a seat and it is not among the playable seats
+		if r.Prop == "C18" {
+			for name, st := range map[string]*sm.Seat{"dealer": d, "small blind": s, "big blind": b} {
+				if st != nil && r.inRange(st.ID) && (r.Res[st.ID] || r.Occ[st.ID] == "") {
+					who := "an empty seat"
+					if r.Occ[st.ID] != "" {
+						who = "seat of " + r.Occ[st.ID] + ", who has joined but not sat in"
+					}
+					note(r.viol("C18", "held-out-of-play/position", "after Next() the %s is on seat %d (%s)", name, st.ID, who))
+				}
+			}
+			func() {
+				defer func() { recover() }()
+				for _, x := range m.GetPlayableSeats() {
+					if r.inRange(x.ID) && (r.Res[x.ID] || r.Occ[x.ID] == "") {
+						note(r.viol("C18", "held-out-of-play/playable", "after Next() seat %d is among the playable seats although its player has not sat in (or it is empty)", x.ID))
+					}
+				}
+			}()
 		}
 		// C08: positions
 		if d == nil || s == nil || b == nil {
